@@ -30,6 +30,7 @@ func runC15(c *Ctx) {
 	c.rule("U10", "a validation error records the enclosing field in front of the path gathered so far, for the structure path and for the variable-name path alike (the error travels from the innermost structure outwards)", 2)
 	c.rule("U11", "a set of flags bound to one key yields a value some flag was explicitly given whenever there is one: the value of a flag nobody set is returned only where the list of explicit values was found empty", 1)
 	c.rule("U12", "binding a flag to a variable recognises the prefix in the name it is given in the spelling loading looks up (key separator replaced), not only as the caller wrote the prefix", 1)
+	c.rule("U13", "the key replacer given to the session replaces the key separator and nothing else: the names loading looks up are the reported names", 1)
 	c.rule("U8", "ValidateEmbedded calls Validate() on every field of struct kind that implements Validator, whatever the field holds, and returns its error", 1)
 	c.rule("U6", "names with an empty prefix: prefix and separator are joined only where the prefix was found non-empty", 2)
 	c.rule("U7", "structure keys are linked to flag keys without prefix removal", 1)
@@ -210,21 +211,24 @@ func runC15(c *Ctx) {
 	c.check(pfx != nil && paramIndex(seo, resolveValue(pfx.Call.Args[len(pfx.Call.Args)-1])) >= 0, "U4", fname(seo)+"/prefix", c.pos(seo.Pos()), "SetEnvPrefix(caller's prefix)", "the session's environment prefix is not the prefix the caller gave")
 	c.check(auto != nil, "U4", fname(seo)+"/automatic", c.pos(seo.Pos()), "AutomaticEnv()", "AutomaticEnv() is not switched on: environment variables are not looked up for structure keys")
 	sepOK, envSep := false, ""
+	extra := ""
 	if rep != nil {
-		for _, l := range sources(rep.Call.Args[len(rep.Call.Args)-1], deriveOpts{}) {
-			if nr, ok := l.(*ssa.Call); ok && calleeFull(&nr.Call) == "strings.NewReplacer" {
-				el := variadicElems(nr.Call.Args[0])
-				if len(el) == 2 {
-					from, ok1 := constString(el[0])
-					to, ok2 := constString(el[1])
-					if ok1 && ok2 && from == "." {
-						sepOK, envSep = true, to
-					}
+		if pairs, ok := c15ReplacerPairs(rep.Call.Args[len(rep.Call.Args)-1]); ok {
+			for _, pr := range pairs {
+				if pr[0] == "." {
+					sepOK, envSep = true, pr[1]
+				} else {
+					extra = strconvQuote(pr[0]) + " → " + strconvQuote(pr[1])
 				}
 			}
 		}
 	}
 	c.check(sepOK, "U4", fname(seo)+"/replacer", c.pos(seo.Pos()), "key replacer maps \".\" to "+strconvQuote(envSep), "the environment key replacer does not map the configuration key separator to a constant separator")
+	// U13: the names looked up are the keys with the key separator replaced — and nothing else. The reporting side builds its names from
+	// the keys as they are (U4, reporting side): any further replacement made when a variable is looked up (a dash turned into an
+	// underscore) makes loading honour a name that is not the one reported, for every field beneath a key that contains it.
+	c.check(extra == "", "U13", fname(seo)+"/only-the-key-separator-is-replaced", c.pos(seo.Pos()), "the session's key replacer replaces the key separator only",
+		"the session's key replacer also replaces "+extra+": for a tag with that character loading looks up another name than the one DetermineConfigurationEnvironmentVariables reports (DEMO_LEAF_SECTION_HOST honoured, DEMO_LEAF-SECTION_HOST reported): the variable set under the reported name no longer beats the file or the defaults")
 	// the reporting side
 	det := c.fn(cfgPkg, "DetermineConfigurationEnvironmentVariables")
 	flat := c.fn(cfgPkg, "flattenDefaultsMap")
@@ -325,16 +329,14 @@ func runC15(c *Ctx) {
 						fromPrefix = true
 					}
 				}
-				nr, isNR := cl.Call.Args[0].(*ssa.Call)
-				if !fromPrefix || !isNR || calleeFull(&nr.Call) != "strings.NewReplacer" {
+				if !fromPrefix {
 					return
 				}
-				els := variadicElems(nr.Call.Args[0])
-				if len(els) == 2 {
-					from, ok1 := constString(els[0])
-					to, ok2 := constString(els[1])
-					if ok1 && ok2 && to == envSep && from != "" && from != to {
-						replaced = true
+				if pairs, ok := c15ReplacerPairs(cl.Call.Args[0]); ok {
+					for _, pr := range pairs {
+						if pr[0] == "." && pr[1] == envSep {
+							replaced = true
+						}
 					}
 				}
 			})
@@ -445,12 +447,9 @@ func runC15(c *Ctx) {
 				case *ssa.Call:
 					switch n := calleeFull(&x.Call); {
 					case n == "(*strings.Replacer).Replace":
-						if nr, ok := x.Call.Args[0].(*ssa.Call); ok && calleeFull(&nr.Call) == "strings.NewReplacer" {
-							els := variadicElems(nr.Call.Args[0])
-							if len(els) == 2 {
-								from, ok1 := constString(els[0])
-								to, ok2 := constString(els[1])
-								if ok1 && ok2 && to == envSep && from != "" && from != to {
+						if pairs, ok := c15ReplacerPairs(x.Call.Args[0]); ok {
+							for _, pr := range pairs {
+								if pr[0] == "." && pr[1] == envSep {
 									return walk(x.Call.Args[1], depth+1, true)
 								}
 							}
@@ -722,11 +721,13 @@ func c15CaseOf(v ssa.Value, depth int) string {
 			return c15CaseOf(x.Call.Args[0], depth+1)
 		case "(*strings.Replacer).Replace":
 			// a replacer whose strings carry no letters (`.` → `_`) leaves the case as it is
-			if nr, ok := x.Call.Args[0].(*ssa.Call); ok && calleeFull(&nr.Call) == "strings.NewReplacer" {
+			if pairs, ok := c15ReplacerPairs(x.Call.Args[0]); ok {
 				letters := false
-				for _, e := range variadicElems(nr.Call.Args[0]) {
-					if ks, isK := constString(e); !isK || strings.ToLower(ks) != strings.ToUpper(ks) {
-						letters = true
+				for _, pr := range pairs {
+					for _, ks := range pr {
+						if strings.ToLower(ks) != strings.ToUpper(ks) {
+							letters = true
+						}
 					}
 				}
 				if !letters {
@@ -770,3 +771,48 @@ func c15CaseOf(v ssa.Value, depth int) string {
 }
 
 func strconvQuote(s string) string { return "\"" + s + "\"" }
+
+// c15ReplacerPairs: the (from, to) pairs of a *strings.Replacer value — a strings.NewReplacer call with constant operands, here
+// or as the initial value of a package-level variable. ok is false when the value cannot be resolved.
+func c15ReplacerPairs(v ssa.Value) (pairs [][2]string, ok bool) {
+	var nr *ssa.Call
+	for _, l := range sources(v, deriveOpts{}) {
+		switch x := l.(type) {
+		case *ssa.Call:
+			if calleeFull(&x.Call) == "strings.NewReplacer" {
+				nr = x
+			}
+		case *ssa.UnOp:
+			g, isG := x.X.(*ssa.Global)
+			if !isG || g.Pkg == nil {
+				continue
+			}
+			// the initial value: a store in the package initialiser
+			if init := g.Pkg.Func("init"); init != nil {
+				allInstrs(init, func(in ssa.Instruction) {
+					if st, isSt := in.(*ssa.Store); isSt && st.Addr == ssa.Value(g) {
+						if cl, isCall := st.Val.(*ssa.Call); isCall && calleeFull(&cl.Call) == "strings.NewReplacer" {
+							nr = cl
+						}
+					}
+				})
+			}
+		}
+	}
+	if nr == nil {
+		return nil, false
+	}
+	el := variadicElems(nr.Call.Args[0])
+	if len(el)%2 != 0 {
+		return nil, false
+	}
+	for i := 0; i+1 < len(el); i += 2 {
+		from, ok1 := constString(el[i])
+		to, ok2 := constString(el[i+1])
+		if !ok1 || !ok2 {
+			return nil, false
+		}
+		pairs = append(pairs, [2]string{from, to})
+	}
+	return pairs, true
+}
